@@ -326,6 +326,45 @@ def gen_synthetic_case(rnd):
     return {'kind': 'synthetic', 'scn': s, 'target': LINK_NAME, 'refs': 'names', 'fake': fake, 'info': {'mode': mode}}
 
 
+def corner_cases():
+    """hand-made structured problems for the corners of the numpy / scipy assignment rules (name -> case)"""
+    def mk(rows, n, acols, T=1, largs=None):
+        g = {'start': '2021-01-01T00:00:00', 'end': gen.iso(pd.Timestamp('2021-01-01') + T * gen.H), 'freq': 'h', 'unit': 'h', 'tz': None,
+             'T_nominal': T, 'step_s': 3600}
+        gen.fix_grid(g)
+        args = dict({'asset1_variable': ['A', 'x', 'N1'], 'asset2_variable': ['B', 'y', None], 'time_back': 0, 'time_forward': 0,
+                     'asset2_time_already_running': 0}, **(largs or {}))
+        inner = [{'type': 'SimpleContract', 'name': 'A', 'nodes': ['N1'], 'args': {'min_cap': 0.0, 'max_cap': 1.0}},
+                 {'type': 'SimpleContract', 'name': 'B', 'nodes': ['N1'], 'args': {'min_cap': 0.0, 'max_cap': 1.0}}]
+        rows = [dict({'bool': False, 'kind': 'd'}, **r) for r in rows]
+        fake = {'c': [0.0] * n, 'l': [0.0] * n, 'u': [float(j + 1) for j in range(n)], 'A': [] if acols is not None else None, 'acols': acols,
+                'b': [] if acols is not None else None, 'cType': '' if acols is not None else None, 'mapping': rows, 'drop_var_name': False}
+        s = {'grid': g, 'nodes': ['N1', 'M'], 'prices': {}, 'assets': [{'type': 'LinkedAsset', 'name': LINK_NAME, 'nodes': ['N1'], 'inner': inner, 'args': args}]}
+        return {'kind': 'synthetic', 'scn': s, 'target': LINK_NAME, 'refs': 'names', 'fake': fake, 'info': {'mode': 'corner'}}
+
+    def X(v, t=0):
+        return {'var': v, 'var_name': 'x__A', 'step': t, 'node': 'N1'}
+
+    def Y(v, t=0):
+        return {'var': v, 'var_name': 'y__B', 'step': t, 'node': None}
+    return {
+        'two labels for v1, one for v2 outside the matrix (shape before range: value)': mk([X(1), X(2), Y(4)], 5, 4),
+        'two and two labels, one outside the matrix (index)': mk([X(1), X(2), Y(4), Y(0)], 5, 4),
+        'v1 outside the matrix (index)': mk([X(4), Y(0)], 5, 4),
+        'v1 outside the bound vector, zeroing (index)': mk([X(6), Y(0)], 5, 8, largs={'time_back': 1}),
+        'v1 outside the bound vector, row (index)': mk([X(6), Y(0)], 5, 8),
+        'v2 outside the matrix (index)': mk([X(1), Y(4)], 5, 4),
+        'no matrix, no row due': mk([X(1), Y(0)], 3, None, largs={'time_back': -1}),
+        'no matrix, row due (attribute)': mk([X(1), Y(0)], 3, None),
+        'v1 and v2 the same variable (overwritten coefficient)': mk([X(1), {'var': 1, 'var_name': 'y__B', 'step': 0, 'node': None}], 3, 3),
+        'v2 found twice with the same label': mk([X(1), Y(2), Y(2)], 3, 3),
+        'v1 found twice with the same label, v2 two labels (paired)': mk([X(1), X(1), Y(2), Y(0)], 3, 3),
+        'one label for v1, two for v2 (broadcast)': mk([X(1), Y(2), Y(0)], 3, 3),
+        'two steps, zeroing then rows with the updated bound': mk([X(0), X(1, 1), Y(2), Y(3, 1)], 4, 4, T=2, largs={'time_back': 1, 'time_forward': 1}),
+        'one variable at two steps (coarse variable 1)': mk([X(0), X(0, 1), Y(2), Y(3, 1)], 4, 4, T=2, largs={'time_back': 1}),
+    }
+
+
 def gen_case(rnd, tmax=8):
     if rnd.random() < 0.8:
         return gen_real_case(rnd, tmax)
@@ -738,6 +777,16 @@ def selftest(n, seed, drv, oracles=0, verbose=False):
     counts = {'cases': 0, 'real': 0, 'synthetic': 0, 'compared': 0, 'compared_structured_route': 0, 'impl_errors': {}, 'model_errors': {}, 'new_rows': 0,
               'zeroed_bounds': 0, 'with_new_rows': 0, 'oracle_cases': 0, 'oracle_violations': 0, 'oracle_stats': {}, 'features': {}}
     disagreements, violations = [], []
+    counts['corner_cases'] = 0
+    for name, case in corner_cases().items():
+        counts['corner_cases'] += 1
+        ir, mr, dis = run_corr(case, drv)
+        if mr is None:
+            dis = dis + ['corner case not compared']
+        for d in dis:
+            disagreements.append({'case': name, 'detail': d, 'scenario': case})
+            if verbose:
+                print('DISAGREE', name, d)
     for i in range(n):
         case = gen_case(random.Random(rnd.getrandbits(48)))
         counts['cases'] += 1
